@@ -115,6 +115,7 @@ def rot_frame(X, salt=0):
     import pandas as pd
     X = np.asarray(X)
     n = X.shape[0]
-    kind = (int(salt) + n + (X.shape[1] if X.ndim > 1 else 1)) % 4
-    index = [None, pd.RangeIndex(300, 300 + n), pd.RangeIndex(0, 3 * n, 3), pd.date_range("2021-03-01", periods=n, freq="D")][kind]
+    kind = (int(salt) + n + (X.shape[1] if X.ndim > 1 else 1)) % 5
+    index = [None, pd.RangeIndex(300, 300 + n), pd.RangeIndex(0, 3 * n, 3), pd.date_range("2021-03-01", periods=n, freq="D"),
+             pd.Index([i // 2 for i in range(n)], dtype="int64")][kind]          # the last one: sorted labels with repeated values
     return pd.DataFrame(X, index=index)
